@@ -1755,6 +1755,46 @@ fn space_wide(ctx: &Ctx) {
             }
         }
     }
+    // CFF / CFF2 offSize 3 -> 4 at 2^24 - 2 bytes of charstrings data (the last 1-based offset is then
+    // exactly 0xFFFFFF). One 16 MiB glyph keeps these few cases cheap. Base totals are 11 + big.
+    let limit3 = (1usize << 24) - 2;
+    let thorough = run.tier == Tier::Thorough;
+    let mut n_big = 0u64;
+    for (kind, tag) in [(BaseKind::Cff, CFF), (BaseKind::Cff2, CFF2)] {
+        // base total -> after the +4 patch (gid 0: 3 -> 7 bytes): limit-1, limit, limit+1, limit+2, limit+4
+        let base_totals: Vec<usize> = if thorough {
+            vec![limit3 - 5, limit3 - 4, limit3 - 3, limit3 - 2, limit3]
+        } else {
+            vec![limit3 - 4] // quick: the one case that lands exactly on the limit
+        };
+        for total in base_totals {
+            let spec = BaseSpec {
+                kind,
+                lens: vec![3, 1, 0, 5, 2, total - 11],
+                off_size: 3,
+                gvar_tuples_last: false,
+            };
+            // +4 bytes; unchanged total (gid 2 stays empty); shrink by one (gid 1: 1 -> 0 bytes)
+            let mut patch_sets: Vec<Vec<GkPatch>> = vec![vec![gk_patch(3, &[0], &[tag], false, COMPAT_IFT)]];
+            if thorough {
+                patch_sets.push(vec![gk_patch(4, &[2], &[tag], false, COMPAT_IFT)]);
+                patch_sets.push(vec![gk_patch(4, &[1], &[tag], false, COMPAT_IFT)]);
+                // grouping: A alone lands on / crosses the boundary, B takes it back below
+                patch_sets.push(vec![gk_patch(3, &[0], &[tag], false, COMPAT_IFT), gk_patch(4, &[3], &[tag], false, COMPAT_IFT)]);
+            }
+            for patches in patch_sets {
+                n_big += 1;
+                scenarios.push(Scenario {
+                    base: spec.clone(),
+                    mapping: Mapping::F2,
+                    patches,
+                    note: "wide-cff-16M".into(),
+                    real_brotli: false,
+                });
+            }
+        }
+    }
+    run.count("wide_scenarios_cff_offsize_3_to_4", n_big);
     run.count("wide_scenarios", scenarios.len() as u64);
     run.sample(json!({"space":"wide","base": scenarios[1].base, "gids": scenarios[1].patches[0].gids}));
     let scenarios = &scenarios;
